@@ -24,6 +24,10 @@ structure DState where
   threads : State Lock
   /-- request kinds per thread -/
   kinds : List (List Kind)
+  /-- per thread: the rows of held-while-acquiring edges its requests may use.  A node-level request
+  contributes the row of its kind; a protocol-level request (a real handler arm run by the harness)
+  contributes the row of ITS arm in the generated front-end table `arms` -/
+  rows : List (List (List (Cls × Cls)))
   /-- pending want per thread -/
   wants : List (Option Lock)
   fin : List Bool
@@ -34,6 +38,7 @@ def maxThreads : Nat := 4
 
 def init : DState :=
   { threads := List.replicate maxThreads ⟨[], []⟩, kinds := List.replicate maxThreads [],
+    rows := List.replicate maxThreads [],
     wants := List.replicate maxThreads none, fin := List.replicate maxThreads false,
     slotAcq := List.replicate maxThreads 0 }
 
@@ -87,7 +92,28 @@ def reqKind? : String → Option Kind
   | "hsignlocal" => some .channel_request
   | s => Kind.ofString? s
 
-def allowed (ks : List Kind) (h c : Cls) : Bool := ks.any (fun k => (edges k).contains (h, c))
+/-- harness request name ↦ program of the generated front-end table (handler arm) it executes -/
+def reqArm? : String → Option String
+  | "hval0" | "hval1" => some "Channel.ValidateCommitmentTx2"
+  | "hsignlocal" => some "Channel.SignLocalCommitmentTx2"
+  | "rprekeysend" => some "Root.PreapproveKeysend"
+  | "rpreinvoice" => some "Root.PreapproveInvoice"
+  | "rnewchan" => some "Root.NewChannel"
+  | "rforget" => some "Root.ForgetChannel"
+  | "rtipinfo" => some "Root.TipInfo"
+  | "rheartbeat" => some "Root.GetHeartbeat"
+  | _ => none
+
+/-- the row a request may use: its arm's row if it is a protocol-level request whose arm is in the
+generated table, the row of its kind otherwise -/
+def reqRow (name : String) (k : Kind) : List (Cls × Cls) :=
+  match reqArm? name with
+  | some a => match arms.lookup a with
+    | some row => row
+    | none => edges k
+  | none => edges k
+
+def allowed (rows : List (List (Cls × Cls))) (h c : Cls) : Bool := rows.any (fun r => r.contains (h, c))
 
 /-- thread that holds `l` -/
 def holder (s : State Lock) (l : Lock) : Option Nat :=
@@ -145,7 +171,8 @@ def step (d : DState) (toks : List String) : DState × String :=
     match nat? tid, reqKind? name with
     | some t, some k =>
       if t < maxThreads then
-        ({ d with kinds := d.kinds.set t ((d.kinds[t]?.getD []) ++ [k]) }, "ok")
+        ({ d with kinds := d.kinds.set t ((d.kinds[t]?.getD []) ++ [k]),
+                  rows := d.rows.set t ((d.rows[t]?.getD []) ++ [reqRow name k]) }, "ok")
       else (d, "bad-op")
     | _, _ => (d, "bad-op")
   | "run" :: _ => (d, "ok")
@@ -169,7 +196,7 @@ def step (d : DState) (toks : List String) : DState × String :=
         | none => (d, "bad:held")
         | some s2 =>
           let ks := d.kinds[t]?.getD []
-          let bad := th.held.find? (fun h => !allowed ks h.cls l.cls)
+          let bad := th.held.find? (fun h => !allowed (d.rows[t]?.getD []) h.cls l.cls)
           let nacq := (d.slotAcq[t]?.getD 0) + (if l.cls == .slot then 1 else 0)
           let d' := { d with threads := s2, wants := d.wants.set t none, slotAcq := d.slotAcq.set t nacq }
           match bad with
